@@ -92,7 +92,10 @@ func c12Ops(r *verifh.Rng, n, interval int, g c12GenCfg) []string {
 	tick(r.Pick(0, 1, n-1, n, n+1, r.Intn(2*n+1)))
 	steps := func(k int) int {
 		var s int
-		switch r.Intn(11) {
+		switch r.Intn(12) {
+		case 11:
+			// far beyond 32 bits (never due within the section; re-timed, removed or drained later)
+			s = r.Pick(1<<31-1, 1<<31, 1<<32+r.Range(0, 2*n), 1<<40+r.Range(0, n), 1<<52)
 		case 0:
 			s = 1
 		case 1:
